@@ -17,7 +17,7 @@ from vf.worker import exc_sig
 
 LEVEL = "exploration"
 RULE = ("generated models over + - * / ^, unary minus, der, sin/cos/tan and time with nested parenthesised "
-        "sub-expressions of every operator pair, one level of sub-components (dotted names), names colliding with "
+        "sub-expressions of every operator pair, der() as a call argument, names of 90+ characters, one level of sub-components (dotted names), names colliding with "
         "Python builtins / dict attributes and with mangled dotted names; distinct = digest of model text; "
         "non-trivial = an equation whose right-hand side needs parentheses (an operator below a tighter-binding one)")
 ASSUMPTIONS = ["compute_fg (symbolic solving) is stubbed out: the property is about the emitted lists and equations",
@@ -88,6 +88,13 @@ def gen_case(rng):
         pf = rng.choice([[], [], [], ["parameter"], ["constant"], ["input"], ["output"]])
         prefixes[n] = pf
         val = " = %s" % round(rng.uniform(0.5, 4), 2) if set(pf) & {"parameter", "constant"} else ""
+        if val and rng.random() < 0.2:
+            # a negative value is a unary expression, not a literal
+            val = " = -%s" % round(rng.uniform(0.5, 4), 2)
+            tags.add("value:negative")
+        elif not pf and rng.random() < 0.12:
+            val = "(start = %s%s)" % (rng.choice(["-", ""]), round(rng.uniform(0.5, 4), 1))
+            tags.add("attr:start")
         decls.append("  %sReal %s%s;" % ("".join(p + " " for p in pf), n, val))
         allnames.append(n)
     if rng.random() < 0.25:
